@@ -12,6 +12,7 @@ import time as _realtime
 from unittest import mock
 
 from . import core, zkfake
+from . import sched_l1
 
 core.ensure_repo_on_path()
 from treadmill import scheduler, zkutils, zknamespace as z  # noqa: E402
@@ -56,6 +57,31 @@ def relms(t):
     return int(round((float(t) - T0) * 1000))
 
 
+def rels(t):
+    """absolute seconds -> whole seconds since T0 (None -> -1, 0 -> 0)."""
+    if t is None:
+        return -1
+    if not t:
+        return 0
+    import math
+    return int(math.floor(float(t) - T0 + 1e-6))
+
+
+MEM_SPELL = [lambda v: (v, 'M'), lambda v: (v * 1024, 'K'), lambda v: (v, 'm'), lambda v: (v * 1024, 'k'),
+             lambda v: (v // 1024, 'G') if v % 1024 == 0 and v else (v, 'M'),
+             lambda v: (v // 1024, 'g') if v % 1024 == 0 and v else (v, 'M')]
+CPU_SPELL = [lambda v: (v, '%'), lambda v: (v, '')]
+
+
+def spell(vec, rng):
+    """[mem MB, cpu %, disk MB] -> ([ [mantissa, suffix] x3 ], resource doc)."""
+    m = rng.choice(MEM_SPELL)(vec[0])
+    c = rng.choice(CPU_SPELL)(vec[1])
+    d = rng.choice(MEM_SPELL)(vec[2])
+    doc = {'memory': '%d%s' % m, 'cpu': ('%d%s' % c) if c[1] else c[0], 'disk': '%d%s' % d}
+    return [list(m), list(c), list(d)], doc
+
+
 def bits(mask):
     return [i for i in range(0, 16) if mask & (1 << i)]
 
@@ -88,6 +114,29 @@ class World:
         for p in self._patches:
             p.start()
         try:
+            import random as _random
+            self.rng = _random.Random(scn.get('seed', 0))
+            self.spells = {}         # server / app model name -> spelling used
+            self.queues = []
+            self.placement = None
+            world = self
+            orig_fp = scheduler.Cell._find_placements
+            orig_sched = scheduler.Cell.schedule
+
+            def _capture(cell, queue, servers):
+                world.queues.append([[world.aname(a.name),
+                                      (-1 if a.final_rank == scheduler._UNPLACED_RANK
+                                       else int(a.final_rank)), bool(a.server)] for a in queue])
+                return orig_fp(cell, queue, servers)
+
+            def _schedule(cell):
+                world.queues = []
+                world.placement = orig_sched(cell)
+                return world.placement
+            for pt in (mock.patch.object(scheduler.Cell, '_find_placements', _capture),
+                       mock.patch.object(scheduler.Cell, 'schedule', _schedule)):
+                pt.start()
+                self._patches.append(pt)
             self.store = zkfake.ZkStore(self.v.time)
             self.admin = zkfake.ZkFakeClient(self.store)
             self.nodes = {}          # server -> its own client (presence session)
@@ -157,7 +206,11 @@ class World:
         """Node registration: capacity/traits record + ephemeral presence node."""
         sp = self.scn['sprofiles'][idx - 1]
         data = zkutils.get(self.admin, z.path.server(s)) or {}
-        data.update(cap_doc(sp['cap']))
+        sp_spell, doc = spell(sp['cap'], self.rng)
+        self.spells.setdefault(s, [])
+        if sp_spell not in self.spells[s]:
+            self.spells[s].append(sp_spell)
+        data.update(doc)
         data['traits'] = list(sp.get('traits', []))
         data['up_since'] = int(self.v.time())
         zkutils.update(self.admin, z.path.server(s), data)
@@ -168,6 +221,10 @@ class World:
     def ev_CreateApp(self, a, p):
         prof = dict(self.scn['aprofiles'][p - 1])
         name = prof.pop('name')
+        if 'demand' in prof:
+            sp_spell, doc = spell(prof.pop('demand'), self.rng)
+            self.spells[a] = [sp_spell]
+            prof.update(doc)
         ids = masterapi.create_apps(self.admin, name, prof, 1)
         self.names[a] = ids[0]
         self.ids[ids[0]] = a
@@ -180,6 +237,7 @@ class World:
 
     def ev_CreateServer(self, s, idx):
         self._create_server(s, idx)
+        self.spells[s] = [[[0, 'M'], [0, '%'], [0, 'M']]]
 
     def ev_NodeUp(self, s, idx):
         self._node_up(s, idx)
@@ -193,6 +251,7 @@ class World:
 
     def ev_DeleteServer(self, s):
         masterapi.delete_server(self.admin, s)
+        self.spells.pop(s, None)
 
     def ev_ServerState(self, s, state, apps):
         masterapi.update_server_state(self.admin, s, state,
@@ -331,6 +390,41 @@ class World:
         return dict(alive=True, servers=servers, apps=apps, groups=groups)
 
 
+def project_sched(w, m=None):
+    """The master's Cell in the scheduler trace format (sched_l1.project_cell)."""
+    m = m or w.master
+    if m is None:
+        return None
+    buckets = dict(m.buckets)
+    buckets['cell'] = m.cell
+    blevel = {b: (bk.level or 'rack') for b, bk in buckets.items()}
+    bparent = {b: (bk.parent.name if bk.parent is not None else '') for b, bk in buckets.items()}
+    bparent['cell'] = ''
+    # the cell bucket is called by the cell name in parent links
+    for b, par in list(bparent.items()):
+        if par == m.cell.name:
+            bparent[b] = 'cell'
+    allocs = {}
+
+    def walk(label, alloc, path):
+        allocs['%s:%s' % (label, '/'.join(path))] = alloc
+        for n, sub in alloc.sub_allocations.items():
+            walk(label, sub, path + [n])
+    for label, part in m.cell.partitions.items():
+        walk(label, part.allocation, [])
+    codes = dict(m.trait_codes)
+
+    def traitsf(mask):
+        return sorted(n for n, b in codes.items() if mask & b)
+    order0 = int(T0 * 1000000) - int(scheduler._GLOBAL_ORDER_BASE)
+    st = sched_l1.project_cell(m.cell, m.servers, buckets, blevel, bparent, allocs, w.v.ticks,
+                               rels, traitsf, order0, rename=w.aname)
+    for s, srv in st['servers'].items():
+        if srv['parent'] == m.cell.name:
+            srv['parent'] = 'cell'
+    return st
+
+
 def replay(scn, history):
     """Returns trace lines: ev, args, store (projection of ZooKeeper), model
     (projection of Master.cell), for Restart also `loaded` (model right after
@@ -339,7 +433,8 @@ def replay(scn, history):
     lines = []
     try:
         lines.append(dict(ev='Init', args=[], store=w.project_store(), model=w.project(),
-                          loaded=w.loaded, clock=relms(w.v.time())))
+                          loaded=w.loaded, clock=relms(w.v.time()), post=project_sched(w),
+                          spells=dict(w.spells)))
         for ev, args in history:
             line = dict(ev=ev, args=list(args))
             pre_store = w.project_store() if ev in ('Restart', 'CrashRestart') else None
@@ -353,6 +448,14 @@ def replay(scn, history):
             line['store'] = w.project_store()
             line['model'] = w.project()
             line['clock'] = relms(w.v.time())
+            post = project_sched(w) if 'exc' not in line else None
+            if post is not None:
+                line['post'] = post
+                line['spells'] = {k: v for k, v in w.spells.items()}
+                if ev == 'Cycle' and w.placement is not None:
+                    line['queues'] = w.queues
+                    line['placement'] = [[w.aname(n), b or '', rels(eb), a or '', rels(ea)]
+                                         for n, b, eb, a, ea in w.placement]
             if ev in ('Restart', 'CrashRestart'):
                 line['loaded'] = w.loaded if 'exc' not in line else dict(alive=False, servers={}, apps={}, groups={})
                 line['prestore'] = pre_store
@@ -364,3 +467,29 @@ def replay(scn, history):
     finally:
         w.close()
     return lines
+
+
+def sched_segments(tid, lines):
+    """Cut an L2 trace into segments the scheduler trace spec can judge: maximal
+    runs of lines that carry the scheduler-format projection `post`.  Only
+    reschedule cycles are judged as Cycle lines (pre = previous line)."""
+    segs, cur = [], []
+    for k, l in enumerate(lines):
+        if 'post' not in l or l['post'] is None:
+            if len(cur) > 1:
+                segs.append(cur)
+            cur = []
+            continue
+        if not cur:
+            cur.append(dict(ev='Init', args=[], h=k, post=l['post']))
+            continue
+        is_cycle = l['ev'] == 'Cycle' and 'queues' in l
+        line = dict(ev='Cycle' if is_cycle else 'L2', args=[], h=k, post=l['post'],
+                    spells=l.get('spells', {}))
+        if is_cycle:
+            line['queues'] = l['queues']
+            line['placement'] = l['placement']
+        cur.append(line)
+    if len(cur) > 1:
+        segs.append(cur)
+    return [dict(tid='%s/%d' % (tid, j), kind='l2', scn={}, lines=seg) for j, seg in enumerate(segs)]
